@@ -232,15 +232,23 @@ payload_plausible(RPFrame *f)
 {
     size_t actualsize = f->payload.size;
     if (BIT_ISSET(f->header.options, RP_OPT_WORD_SIZE_16)) {
+        if ((actualsize % 2u) != 0u) {
+            /* A trailing odd octet cannot be part of 16 bit words. */
+            return -EFAULT;
+        }
         actualsize /= 2;
     }
     switch (f->header.type) {
     case RP_FRAME_READ_REQUEST:
-        /* FALLTHROUGH */
+        return (actualsize == 0) ? 0 : -EFAULT;
     case RP_FRAME_WRITE_RESPONSE:
         /* FALLTHROUGH */
     case RP_FRAME_META:
-        return (actualsize == 0) ? 0 : -EFAULT;
+        /* These usually have no payload (and may mirror the block size of the
+         * request), but error responses that report an address or a buffer
+         * size carry a payload of the announced size. */
+        return (actualsize == 0 || f->header.blocksize == actualsize)
+            ? 0 : -EFAULT;
     case RP_FRAME_READ_RESPONSE:
         /* FALLTHROUGH */
     case RP_FRAME_WRITE_REQUEST:
